@@ -147,9 +147,12 @@ def run(ctx):
     G.rule_F7a(ctx, fs)
     G.rule_F4d(ctx, fs, "match import/export", floor=20)
     ctx.rule("F8b", "no int()/float() of a rank>=1 array on the exporter's path (get_matched_notes)")
-    gm = prog.func("partitura.musicanalysis.performance_codec:get_matched_notes")
-    ctx.touch(gm)
-    bad = list(G.scalar_conversion_of_array(gm))
-    ctx.check(not bad, "F8b", "get_matched_notes", func=gm, node=bad[0] if bad else None, construct="int-of-array:get_matched_notes",
-              msg="int() of a rank-1 index array: the exporter cannot produce a file at all under the installed numpy")
+    for gq in ("partitura.musicanalysis.performance_codec:get_matched_notes", "partitura.score:unfold_part_alignment",
+               "partitura.musicanalysis.performance_codec:get_time_maps_from_alignment", f"{EM}:matchfile_from_alignment"):
+        gm = prog.func(gq, "F8b")
+        ctx.touch(gm)
+        bad = list(G.scalar_conversion_of_array(gm))
+        ctx.check(not bad, "F8b", gm.name, func=gm, node=bad[0] if bad else None, construct=f"int-of-array:{gm.name}",
+                  msg=f"`{norm(bad[0]) if bad else ''}`: int() of a rank-1 index array on some path: the exporter cannot produce a "
+                      f"file under the installed numpy")
     G.rule_F8a(ctx, [f"{EM}:matchfile_from_alignment", f"{EM}:save_match", f"{IM}:load_match"], "match io", max_depth=5)
